@@ -10,6 +10,7 @@
 
 #include <distributed/mpi.h>
 #include <lp/lp.h>
+#include <verif/hooks.h>
 
 /// The number of nodes that still need to continue running the simulation
 _Atomic nid_t nodes_to_end;
@@ -38,6 +39,7 @@ void termination_lp_init(struct lp_ctx *lp)
 	bool term = global_config.committed(lp - lps, lp->state_pointer);
 	lps_to_end += !term;
 	lp->termination_t = term * SIMTIME_MAX;
+	VERIF_POINT(VP_TERM_LP, lp - lps, VERIF_D(lp->termination_t), term, 1);
 }
 
 /**
@@ -53,6 +55,7 @@ void termination_on_msg_process(struct lp_ctx *lp, simtime_t msg_time)
 	max_t = term ? max(msg_time, max_t) : max_t;
 	lp->termination_t = term * msg_time;
 	lps_to_end -= term;
+	VERIF_POINT(VP_TERM_LP, lp - lps, VERIF_D(msg_time), term, 0);
 }
 
 /**
@@ -61,6 +64,7 @@ void termination_on_msg_process(struct lp_ctx *lp, simtime_t msg_time)
 void termination_on_ctrl_msg(void)
 {
 	atomic_fetch_sub_explicit(&nodes_to_end, 1U, memory_order_relaxed);
+	VERIF_POINT(VP_TERM_CTRL, 0, 0, 0, 0);
 }
 
 /**
@@ -76,6 +80,7 @@ void termination_on_gvt(simtime_t current_gvt)
 		return;
 	max_t = SIMTIME_MAX;
 	unsigned t = atomic_fetch_sub_explicit(&thr_to_end, 1U, memory_order_relaxed);
+	VERIF_POINT(VP_VOTE, VERIF_D(current_gvt), t, lps_to_end, 0);
 	if(t == 1)
 		mpi_control_msg_broadcast(MSG_CTRL_TERMINATION);
 }
@@ -105,4 +110,5 @@ void termination_on_lp_rollback(struct lp_ctx *lp, simtime_t msg_time)
 	bool keep = old_t < msg_time || old_t == SIMTIME_MAX;
 	lp->termination_t = keep * old_t;
 	lps_to_end += !keep;
+	VERIF_POINT(VP_TERM_UNDO, lp - lps, VERIF_D(old_t), keep, VERIF_D(msg_time));
 }
